@@ -547,7 +547,7 @@ import formats  # noqa: E402
 
 
 # name classes every format of a chain can carry (the chain is skipped under any other naming)
-CHAIN_CLASSES = {'uvl': {'plain', 'space', 'edgespace', 'nearsame', 'long', 'numeric', 'punct', 'uvlkw', 'opword', 'digit0', 'under0',
+CHAIN_CLASSES = {'uvl': {'plain', 'casepair', 'space', 'edgespace', 'nearsame', 'long', 'numeric', 'punct', 'uvlkw', 'opword', 'digit0', 'under0',
                          'nonascii', 'afmword'},
                  'afm': {'afmword'}}
 
@@ -615,7 +615,7 @@ def roundtrip_script(fmt):
     return script
 
 
-ALL_NAME_CLASSES = ('space', 'edgespace', 'nearsame', 'nonnfc', 'long', 'numeric', 'punct', 'uvlkw', 'opword', 'digit0', 'under0', 'nonascii', 'quote', 'dot', 'apos')
+ALL_NAME_CLASSES = ('casepair', 'space', 'edgespace', 'nearsame', 'nonnfc', 'long', 'numeric', 'punct', 'uvlkw', 'opword', 'digit0', 'under0', 'nonascii', 'quote', 'dot', 'apos')
 
 
 def fam_names(fmt):
@@ -631,11 +631,11 @@ prop('C08', fam_names('glencoe'), name_classes=ALL_NAME_CLASSES, naming_matters=
      assumptions=['constraints have distinct names (the format keys them by name)'])(roundtrip_script('glencoe'))
 prop('C07', fam_names('fide'), name_classes=ALL_NAME_CLASSES, naming_matters=True,
      assumptions=['names are XML-representable: no control characters'])(roundtrip_script('fide'))
-prop('C06', fam_names('afm'), name_classes=('afmword',), base_class='afmword', naming_matters=True,
+prop('C06', fam_names('afm'), name_classes=('afmword', 'afmcase'), base_class='afmword', naming_matters=True,
      name_stride={'quick': 3, 'thorough': 1},
      assumptions=['names match the AFM WORD token; attribute names the LOWERCASE token; enumerated domain elements, '
                   'default and null values are text tokens; range bounds are integers'])(roundtrip_script('afm'))
-UVL_NAME_CLASSES = ('space', 'edgespace', 'nearsame', 'long', 'numeric', 'punct', 'uvlkw', 'opword', 'digit0', 'under0', 'nonascii')
+UVL_NAME_CLASSES = ('casepair', 'space', 'edgespace', 'nearsame', 'long', 'numeric', 'punct', 'uvlkw', 'opword', 'digit0', 'under0', 'nonascii')
 prop('C01', fam_names('uvl'), name_classes=UVL_NAME_CLASSES, naming_matters=True, name_stride={'quick': 4, 'thorough': 3},
      assumptions=['names carry no double quote, dot or newline; strings no apostrophe; floats have a plain decimal repr'])(
     roundtrip_script('uvl'))
@@ -702,7 +702,7 @@ def prepare_c12(cases, tier, seed):
     return res
 
 
-@prop('C12', ['C12-Tree', 'C12-Ctc', 'C12-Ctc2', 'C12-Attr', 'C12-Edit1', 'C12-EditWalk'], name_classes=('nonascii', 'space'), naming_matters=True,
+@prop('C12', ['C12-Tree', 'C12-Ctc', 'C12-Ctc2', 'C12-Attr', 'C12-Edit1', 'C12-EditWalk', 'C12-Deep'], name_classes=('nonascii', 'space'), naming_matters=True,
       name_stride={'quick': 2, 'thorough': 1}, prepare=prepare_c12,
       assumptions=['the environment matrix (hash seeds x locale x PYTHONUTF8) is sampled, not exhaustive',
                    'purity is judged on the projected object graph'])
@@ -765,7 +765,8 @@ def export_script(langs):
     return script
 
 
-prop('C10', ['Tree', 'TreeCtc', 'Clafer-Ctc2', 'Deep-Ctc', 'Wide', 'Ctc3', 'Edit1', 'EditWalk'], naming_matters=False,
+prop('C10', ['Tree', 'TreeCtc', 'Clafer-Ctc2', 'Deep-Ctc', 'Wide', 'Ctc3', 'Edit1', 'EditWalk'], naming_matters=True,
+     name_classes=('casepair',), name_stride={'quick': 4, 'thorough': 2},
      assumptions=['the .exp precedence is not < and < or < -> < <->, binary connectives left-associative',
                   'SXFM identifiers may be bare words or double-quoted strings'],
      trusted=['harness/parse_export.py (syntax of SXFM and .exp only)'])(export_script(['splot', 'pl']))
